@@ -1,4 +1,5 @@
 import OutlineModel.Proofs.TieMisc
+import OutlineModel.Proofs.TieHandle
 import OutlineModel.Gen.Decisions
 import OutlineModel.Model.TCP
 import OutlineModel.Proofs.CipherList
@@ -110,5 +111,89 @@ theorem code_drain_result (timeout impl : Option String → Bool) (e : Option St
       some (if e = none then "eof" else if impl e && timeout e then "timeout" else "other") ∧
     Gen.Decisions.drainResults = ["eof", "other", "timeout"] :=
   ⟨Tie.Misc.drainErrToString_tie timeout impl e, by decide⟩
+
+/-- **code_unauthenticated_is_absorbed**: the translated `streamHandler.handleConnection` (service/tcp.go), for every
+    handler, context, clock, connection and every behaviour of its collaborators: when the stored authenticate function
+    reports an error `st` (whatever the bytes were), the function never panics, returns exactly that error, and its
+    calls are, in order: arm the deadline, run authenticate on the connection, then `absorbProbe` with that status — nothing else: no write, no close, the
+    address is not read and nothing is dialled (the result is the same for every `getProxyRequest` and
+    `proxyConnection`). -/
+theorem code_unauthenticated_is_absorbed
+    (ctxDeadline : GoRT.Opaque "context.Context" → Int × Bool) (dial : GoRT.Opaque "transport.FuncStreamDialer")
+    (authenticate : Tie.Handle.Conn → String × Tie.Handle.Conn × Option String)
+    (req req' : Tie.Handle.Conn → String × Option String)
+    (disc : GoRT.Opaque "io.Writer") (now : Int)
+    (relay relay' : GoRT.Opaque "slog.Logger" → GoRT.Opaque "context.Context" → GoRT.Opaque "transport.FuncStreamDialer" → String → Tie.Handle.Conn → Tie.Handle.Conn → Option String)
+    (h : Gen.Code.streamHandler) (ctx : GoRT.Opaque "context.Context") (oc : Tie.Handle.Conn)
+    (cm : GoRT.Opaque "service.TCPConnMetrics") (pm : Gen.Code.ProxyMetrics) (st : String)
+    (hfail : (authenticate oc).2.2 = some st) :
+    Gen.Code.streamHandler.handleConnection ctxDeadline dial authenticate req disc now relay h ctx oc cm pm =
+      some (h, pm, some st, Tie.Handle.armEffs (ctxDeadline ctx) now h.readTimeout oc ++ [Tie.Handle.callAuth oc, Tie.Handle.absorbEff oc cm st]) ∧
+    Gen.Code.streamHandler.handleConnection ctxDeadline dial authenticate req' disc now relay' h ctx oc cm pm =
+      Gen.Code.streamHandler.handleConnection ctxDeadline dial authenticate req disc now relay h ctx oc cm pm := by
+  rw [Tie.Handle.handleConnection_tie, Tie.Handle.handleConnection_tie]
+  simp [Tie.Handle.outcome, hfail]
+
+/-- **code_same_deadline_whatever_the_content**: the deadline armed on the client connection before the first byte is
+    read (the arming calls come before the call of authenticate, the first thing that reads) is a function of the clock, the handler's timeout and the context only — two runs of the translated handler on
+    the same connection that differ in everything the client sent (any two authenticate outcomes, address outcomes,
+    relays) start their logs with the same arming calls, and the read deadline is `now + readTimeout` or the context's
+    deadline if that is sooner. -/
+theorem code_same_deadline_whatever_the_content
+    (ctxDeadline : GoRT.Opaque "context.Context" → Int × Bool) (dial : GoRT.Opaque "transport.FuncStreamDialer")
+    (authenticate : Tie.Handle.Conn → String × Tie.Handle.Conn × Option String)
+    (req : Tie.Handle.Conn → String × Option String)
+    (disc : GoRT.Opaque "io.Writer") (now : Int)
+    (relay : GoRT.Opaque "slog.Logger" → GoRT.Opaque "context.Context" → GoRT.Opaque "transport.FuncStreamDialer" → String → Tie.Handle.Conn → Tie.Handle.Conn → Option String)
+    (h : Gen.Code.streamHandler) (ctx : GoRT.Opaque "context.Context") (oc : Tie.Handle.Conn)
+    (cm : GoRT.Opaque "service.TCPConnMetrics") (pm : Gen.Code.ProxyMetrics) :
+    ∃ st rest, Gen.Code.streamHandler.handleConnection ctxDeadline dial authenticate req disc now relay h ctx oc cm pm =
+        some (h, pm, st, Tie.Handle.armEffs (ctxDeadline ctx) now h.readTimeout oc ++ Tie.Handle.callAuth oc :: rest) ∧
+      (Tie.Handle.readDeadline (ctxDeadline ctx) now h.readTimeout = now + h.readTimeout ∨
+        ((ctxDeadline ctx).2 = true ∧ Tie.Handle.readDeadline (ctxDeadline ctx) now h.readTimeout = (ctxDeadline ctx).1 ∧
+          (ctxDeadline ctx).1 < now + h.readTimeout)) := by
+  rw [Tie.Handle.handleConnection_tie]
+  have hd : (Tie.Handle.readDeadline (ctxDeadline ctx) now h.readTimeout = now + h.readTimeout ∨
+        ((ctxDeadline ctx).2 = true ∧ Tie.Handle.readDeadline (ctxDeadline ctx) now h.readTimeout = (ctxDeadline ctx).1 ∧
+          (ctxDeadline ctx).1 < now + h.readTimeout)) := by
+    unfold Tie.Handle.readDeadline
+    by_cases hc : (ctxDeadline ctx).2 = true ∧ (ctxDeadline ctx).1 < now + h.readTimeout
+    · right; simp [hc]
+    · left; simp [hc]
+  unfold Tie.Handle.outcome
+  cases ha : (authenticate oc).2.2 with
+  | some st => exact ⟨_, _, rfl, hd⟩
+  | none =>
+    cases hr : (req (authenticate oc).2.1).2 with
+    | some e => exact ⟨_, _, rfl, hd⟩
+    | none => exact ⟨_, _, rfl, hd⟩
+
+/-- **code_bad_address_is_drained**: after a successful authentication, an address header that cannot be read makes the
+    translated handler clear the read deadline and then drain the raw client connection into io.Discard — the last call
+    it makes — and return ERR_READ_ADDRESS; nothing is dialled (same result for every `proxyConnection`). -/
+theorem code_bad_address_is_drained
+    (ctxDeadline : GoRT.Opaque "context.Context" → Int × Bool) (dial : GoRT.Opaque "transport.FuncStreamDialer")
+    (authenticate : Tie.Handle.Conn → String × Tie.Handle.Conn × Option String)
+    (req : Tie.Handle.Conn → String × Option String)
+    (disc : GoRT.Opaque "io.Writer") (now : Int)
+    (relay relay' : GoRT.Opaque "slog.Logger" → GoRT.Opaque "context.Context" → GoRT.Opaque "transport.FuncStreamDialer" → String → Tie.Handle.Conn → Tie.Handle.Conn → Option String)
+    (h : Gen.Code.streamHandler) (ctx : GoRT.Opaque "context.Context") (oc : Tie.Handle.Conn)
+    (cm : GoRT.Opaque "service.TCPConnMetrics") (pm : Gen.Code.ProxyMetrics) (e : String)
+    (hok : (authenticate oc).2.2 = none) (hbad : (req (authenticate oc).2.1).2 = some e) :
+    Gen.Code.streamHandler.handleConnection ctxDeadline dial authenticate req disc now relay h ctx oc cm pm =
+      some (h, pm, some "ERR_READ_ADDRESS",
+        Tie.Handle.armEffs (ctxDeadline ctx) now h.readTimeout oc ++
+          [Tie.Handle.callAuth oc, Tie.Handle.authEff cm (authenticate oc).1, Tie.Handle.callReq (authenticate oc).2.1,
+           Tie.Handle.clearEff oc, Tie.Handle.drainEff disc oc]) ∧
+    Gen.Code.streamHandler.handleConnection ctxDeadline dial authenticate req disc now relay' h ctx oc cm pm =
+      Gen.Code.streamHandler.handleConnection ctxDeadline dial authenticate req disc now relay h ctx oc cm pm := by
+  rw [Tie.Handle.handleConnection_tie, Tie.Handle.handleConnection_tie]
+  simp [Tie.Handle.outcome, hok, hbad]
+
+/-- non-vacuity: an authenticate that fails with ERR_CIPHER on a context without deadline -/
+example : (Gen.Code.streamHandler.handleConnection (fun _ => (0, false)) ⟨0⟩ (fun c => ("", c, some "ERR_CIPHER"))
+    (fun _ => ("", none)) ⟨0⟩ 1000 (fun _ _ _ _ _ _ => none) { Gen.Code.streamHandler.zero with readTimeout := 59 } ⟨0⟩ ⟨7⟩ ⟨9⟩
+    Gen.Code.ProxyMetrics.zero).map (fun r => (r.2.2.1, r.2.2.2.map (·.name))) =
+    some (some "ERR_CIPHER", ["Conn.SetReadDeadline", "call authenticate", "absorbProbe"]) := by decide
 
 end OutlineModel.Props.C06
